@@ -49,6 +49,7 @@ Section World.
   Hypothesis Hag : view_agree vp vv.
   Hypothesis Hds : Forall good_comp ds.
   Hypothesis Hchain : dir_chain (f_heap (w_fs w)) (v_user vp) (v_root vp) ds (v_root vv).
+  Hypothesis Hroot : perm_on (f_heap (w_fs w)) (v_root vp) OpenLookup (v_user vp) = true.
 
   Notation ok := (okpath (w_fs w) vv ds).
 
@@ -59,30 +60,30 @@ Section World.
   Proof.
     intros H. cbv zeta.
     destruct k; cbn [mk1 wstep]; unfold on_view, lift; rewrite Hvi, Hvj; cbn [fst snd w_fs with_fs].
-    - rewrite (mkdir_prefix _ _ _ _ Hag Hds Hchain ps perm H). split; [reflexivity|apply rc_eq].
-    - destruct (mkdir_all_prefix _ _ _ _ Hag Hds Hchain ps perm H) as (E1 & E2). split; assumption.
-    - destruct (open_file_prefix _ _ _ _ Hag Hds Hchain ps vi vj flag perm H) as (Hf & Hs).
+    - rewrite (mkdir_prefix _ _ _ _ Hag Hds Hchain Hroot ps perm H). split; [reflexivity|apply rc_eq].
+    - destruct (mkdir_all_prefix _ _ _ _ Hag Hds Hchain Hroot ps perm H) as (E1 & E2). split; assumption.
+    - destruct (open_file_prefix _ _ _ _ Hag Hds Hchain Hroot ps vi vj flag perm H) as (Hf & Hs).
       destruct (open_file (w_fs w) vp vi (abs_path (ds ++ ps)) flag perm) as [s1 [r1|f1]];
         destruct (open_file (w_fs w) vv vj (abs_path ps) flag perm) as [s2 [r2|f2]]; cbn [fst snd] in Hf, Hs;
         inversion Hs; subst; cbn [fst snd w_fs with_fs]; (split; [reflexivity|apply rc_eq]).
-    - rewrite (remove_prefix _ _ _ _ Hag Hds Hchain ps H). split; [reflexivity|apply rc_eq].
-    - rewrite (remove_all_prefix _ _ _ _ Hag Hds Hchain ps H). split; [reflexivity|apply rc_eq].
-    - rewrite (symlink_prefix _ _ _ _ Hag Hds Hchain target ps H). split; [reflexivity|apply rc_eq].
-    - rewrite (readlink_prefix _ _ _ _ Hag Hds Hchain ps H). split; [reflexivity|apply rc_eq].
-    - rewrite (truncate_prefix _ _ _ _ Hag Hds Hchain ps size H). split; [reflexivity|apply rc_eq].
-    - rewrite (chmod_prefix _ _ _ _ Hag Hds Hchain ps mode H). split; [reflexivity|apply rc_eq].
-    - rewrite (chown_prefix _ _ _ _ Hag Hds Hchain SlEval ps uid gid H). split; [reflexivity|apply rc_eq].
-    - rewrite (chown_prefix _ _ _ _ Hag Hds Hchain SlLstat ps uid gid H). split; [reflexivity|apply rc_eq].
-    - rewrite (chtimes_prefix _ _ _ _ Hag Hds Hchain ps H). split; [reflexivity|apply rc_eq].
-    - pose proof (chdir_prefix _ _ _ _ Hag Hds Hchain ps H) as Hc.
+    - rewrite (remove_prefix _ _ _ _ Hag Hds Hchain Hroot ps H). split; [reflexivity|apply rc_eq].
+    - rewrite (remove_all_prefix _ _ _ _ Hag Hds Hchain Hroot ps H). split; [reflexivity|apply rc_eq].
+    - rewrite (symlink_prefix _ _ _ _ Hag Hds Hchain Hroot target ps H). split; [reflexivity|apply rc_eq].
+    - rewrite (readlink_prefix _ _ _ _ Hag Hds Hchain Hroot ps H). split; [reflexivity|apply rc_eq].
+    - rewrite (truncate_prefix _ _ _ _ Hag Hds Hchain Hroot ps size H). split; [reflexivity|apply rc_eq].
+    - rewrite (chmod_prefix _ _ _ _ Hag Hds Hchain Hroot ps mode H). split; [reflexivity|apply rc_eq].
+    - rewrite (chown_prefix _ _ _ _ Hag Hds Hchain Hroot SlEval ps uid gid H). split; [reflexivity|apply rc_eq].
+    - rewrite (chown_prefix _ _ _ _ Hag Hds Hchain Hroot SlLstat ps uid gid H). split; [reflexivity|apply rc_eq].
+    - rewrite (chtimes_prefix _ _ _ _ Hag Hds Hchain Hroot ps H). split; [reflexivity|apply rc_eq].
+    - pose proof (chdir_prefix _ _ _ _ Hag Hds Hchain Hroot ps H) as Hc.
       inversion Hc; cbn [fst snd w_fs with_view]; (split; [reflexivity|apply rc_eq]).
-    - rewrite (stat_prefix _ _ _ _ Hag Hds Hchain SlStat ps H). split; [reflexivity|apply rc_eq].
-    - rewrite (stat_prefix _ _ _ _ Hag Hds Hchain SlLstat ps H). split; [reflexivity|apply rc_eq].
-    - split; [reflexivity|apply (eval_symlinks_prefix _ _ _ _ Hag Hds Hchain ps H)].
-    - rewrite (read_dir_prefix _ _ _ _ Hag Hds Hchain ps H). split; [reflexivity|apply rc_eq].
-    - rewrite (read_file_prefix _ _ _ _ Hag Hds Hchain ps H). split; [reflexivity|apply rc_eq].
-    - rewrite (write_file_prefix _ _ _ _ Hag Hds Hchain ps data perm H). split; [reflexivity|apply rc_eq].
-    - pose proof (sub_prefix _ _ _ _ Hag Hds Hchain ps H) as Hc.
+    - rewrite (stat_prefix _ _ _ _ Hag Hds Hchain Hroot SlStat ps H). split; [reflexivity|apply rc_eq].
+    - rewrite (stat_prefix _ _ _ _ Hag Hds Hchain Hroot SlLstat ps H). split; [reflexivity|apply rc_eq].
+    - split; [reflexivity|apply (eval_symlinks_prefix _ _ _ _ Hag Hds Hchain Hroot ps H)].
+    - rewrite (read_dir_prefix _ _ _ _ Hag Hds Hchain Hroot ps H). split; [reflexivity|apply rc_eq].
+    - rewrite (read_file_prefix _ _ _ _ Hag Hds Hchain Hroot ps H). split; [reflexivity|apply rc_eq].
+    - rewrite (write_file_prefix _ _ _ _ Hag Hds Hchain Hroot ps data perm H). split; [reflexivity|apply rc_eq].
+    - pose proof (sub_prefix _ _ _ _ Hag Hds Hchain Hroot ps H) as Hc.
       inversion Hc; cbn [fst snd w_fs]; (split; [reflexivity|apply rc_eq]).
   Qed.
 
@@ -93,8 +94,8 @@ Section World.
   Proof.
     intros Ho Hn. cbv zeta.
     destruct k; cbn [mk2 wstep]; unfold on_view, lift; rewrite Hvi, Hvj; cbn [fst snd w_fs with_fs].
-    - rewrite (rename_prefix _ _ _ _ Hag Hds Hchain po pn Ho Hn). split; reflexivity.
-    - rewrite (link_prefix _ _ _ _ Hag Hds Hchain po pn Ho Hn). split; reflexivity.
+    - rewrite (rename_prefix _ _ _ _ Hag Hds Hchain Hroot po pn Ho Hn). split; reflexivity.
+    - rewrite (link_prefix _ _ _ _ Hag Hds Hchain Hroot po pn Ho Hn). split; reflexivity.
   Qed.
 
   (* Chdir through the view records the path as the view sees it; through the parent, the prefixed one;
@@ -107,7 +108,7 @@ Section World.
                    /\ v_cwd v' = abs_path (ds ++ ps)).
   Proof.
     intros H. cbn [wstep]. unfold on_view. rewrite Hvi, Hvj.
-    pose proof (chdir_prefix _ _ _ _ Hag Hds Hchain ps H) as Hc.
+    pose proof (chdir_prefix _ _ _ _ Hag Hds Hchain Hroot ps H) as Hc.
     destruct (chdir (w_fs w) vv (abs_path ps)) as [rv|dv] eqn:Ev;
       destruct (chdir (w_fs w) vp (abs_path (ds ++ ps))) as [rp|dp] eqn:Ep; inversion Hc; subst; cbn [fst snd].
     - intros E. exfalso. subst rv. clear - Ev. unfold chdir in Ev.
